@@ -239,6 +239,44 @@ class SimFS:
             raise OSError(errno.ENOTEMPTY, "Directory not empty", path)
         self._mutate("rmdir", path, lambda: self.dirs.discard(path))
 
+    def rmtree(self, path, ignore_errors=False, onerror=None, **kw):
+        """shutil.rmtree: files and directories go one by one, deepest first (a crash leaves the rest)."""
+        path = norm(path)
+        if path not in self.dirs:
+            if ignore_errors:
+                return
+            if path in self.files:
+                raise NotADirectoryError(errno.ENOTDIR, "Not a directory", path)
+            raise FileNotFoundError(errno.ENOENT, "No such file or directory", path)
+        for name in self.listdir(path):
+            child = path + "/" + name
+            if child in self.dirs:
+                self.rmtree(child)
+            else:
+                self.remove(child)
+        self.rmdir(path)
+
+    def mkdtemp(self, suffix=None, prefix=None, dir=None):
+        if dir is None or not under_root(dir):
+            raise self._unmodelled(f"temporary directory outside {ROOT}: {dir}")
+        dir = norm(dir)
+        if dir not in self.dirs:
+            raise FileNotFoundError(errno.ENOENT, "No such file or directory", dir)
+        self.tmp_counter += 1
+        name = f"{dir}/{prefix or 'tmp'}{self.tmp_counter:06d}{suffix or ''}"
+        self.mkdir(name)
+        return name
+
+    def copyfile(self, src, dst, **kw):
+        src, dst = norm(src), norm(dst)
+        if dst in self.dirs:
+            dst = dst + "/" + posixpath.basename(src)
+        with self.open(src, "rb") as f:
+            data = f.read()
+        with self.open(dst, "wb") as g:
+            g.write(data)
+        return dst
+
     def scandir(self, path):
         path = norm(path)
         return _ScanDir([_DirEntry(self, path, n) for n in self.listdir(path)])
@@ -376,7 +414,24 @@ class SimFS:
         if not (under_root(src) and under_root(dst)):
             raise self._unmodelled(f"replace across the seam: {src} -> {dst}")
         if src in self.dirs:
-            raise self._unmodelled("directory rename not modelled")
+            # rename of a directory: one atomic operation that moves everything below it
+            if dst in self.files:
+                raise NotADirectoryError(errno.ENOTDIR, "Not a directory", dst)
+            if dst in self.dirs and self.listdir(dst):
+                raise OSError(errno.ENOTEMPTY, "Directory not empty", dst)
+            if dst == src or dst.startswith(src + "/"):
+                raise OSError(errno.EINVAL, "Invalid argument", dst)
+            self._parent_must_exist(dst)
+
+            def apply_dir():
+                for k in [k for k in self.files if k.startswith(src + "/")]:
+                    self.files[dst + k[len(src):]] = self.files.pop(k)
+                for k in [k for k in self.dirs if k == src or k.startswith(src + "/")]:
+                    self.dirs.discard(k)
+                    self.dirs.add(dst + k[len(src):])
+
+            self._mutate("replace", dst, apply_dir)
+            return
         if src not in self.files:
             raise FileNotFoundError(errno.ENOENT, "No such file or directory", src)
         if dst in self.dirs:
@@ -614,6 +669,66 @@ def patched(fs):
 
         return wrapper
 
+    class SimTemporaryDirectory:
+        def __init__(self, suffix=None, prefix=None, dir=None, **k):
+            self.name = fs.mkdtemp(suffix, prefix, dir)
+
+        def cleanup(self):
+            if fs.isdir(self.name):
+                fs.rmtree(self.name)
+
+        def __enter__(self):
+            return self.name
+
+        def __exit__(self, *exc):
+            self.cleanup()
+            return False
+
+    def make_tmpdir(real):
+        def wrapper(suffix=None, prefix=None, dir=None, **k):
+            if dir is not None and under_root(dir):
+                return SimTemporaryDirectory(suffix, prefix, dir)
+            return real(suffix, prefix, dir, **k)
+
+        return wrapper
+
+    def make_mkdtemp(real):
+        def wrapper(suffix=None, prefix=None, dir=None):
+            if dir is not None and under_root(dir):
+                return fs.mkdtemp(suffix, prefix, dir)
+            return real(suffix, prefix, dir)
+
+        return wrapper
+
+    def make_copy(real):
+        def wrapper(src, dst, *a, **k):
+            if under_root(src) and under_root(dst):
+                return fs.copyfile(src, dst)
+            if under_root(src) or under_root(dst):
+                raise fs._unmodelled("copy across the SimFS seam")
+            return real(src, dst, *a, **k)
+
+        return wrapper
+
+    def make_move(real):
+        def wrapper(src, dst, *a, **k):
+            if under_root(src) or under_root(dst):
+                d = norm(dst)
+                if fs.isdir(d) and not fs.isdir(src):
+                    d = d + "/" + posixpath.basename(norm(src))
+                fs.replace(src, d)
+                return d
+            return real(src, dst, *a, **k)
+
+        return wrapper
+
+    patch(tempfile, "TemporaryDirectory", make_tmpdir)
+    patch(tempfile, "mkdtemp", make_mkdtemp)
+    patch(shutil, "rmtree", route1(fs.rmtree))
+    patch(shutil, "copyfile", make_copy)
+    patch(shutil, "copy", make_copy)
+    patch(shutil, "copy2", make_copy)
+    patch(shutil, "move", make_move)
     patch(os.path, "realpath", route1(lambda p, **k: norm(p)))  # no symbolic links in SimFS
     patch(os, "chmod", make_noop)
     patch(os, "utime", make_noop)
@@ -634,8 +749,8 @@ def patched(fs):
     patch(os.path, "islink", route1(lambda p: False))
     for obj, names in ((os, ("open", "link", "symlink", "truncate", "removedirs", "renames", "walk", "mkfifo", "readlink")),
                        (os.path, ("getmtime", "getctime", "getatime", "samefile")),
-                       (shutil, ("copyfile", "copy", "copy2", "copytree", "rmtree", "move")),
-                       (tempfile, ("mkdtemp", "TemporaryDirectory", "TemporaryFile", "SpooledTemporaryFile"))):
+                       (shutil, ("copytree",)),
+                       (tempfile, ("TemporaryFile", "SpooledTemporaryFile"))):
         for name in names:
             patch(obj, name, guard(f"{obj.__name__}.{name}"))
     try:
